@@ -89,7 +89,7 @@ PROPS = {
     "C11": dict(
         domains=[("smserver", "cer", 2500, 40000), ("smserver", "hist", 800, 10000), ("smserver", "multi", 400, 5000)],
         relevant=["C11:"],
-        theorems=["DV.Props.C11."+t for t in ["C11_accept_iff","C11_accept_meta","C11_reject_code","C11_cea_fields","C11_cea_identity","C11_gen"]],
+        theorems=["DV.Props.C11."+t for t in ["C11_accept_iff","C11_accept_meta","C11_reject_code","C11_cea_fields","C11_cea_identity","C11_cea_local_address","C11_gen"]],
         gen_obligations=["Gen.rcSuccess","Gen.rcNoCommonApplication","Gen.rcNoCommonSecurity","Gen.rcUnableToComply","Gen.relayAppId","Gen.cmdCapabilitiesExchange"],
         trusted=["Model.SM hand-written from diam/sm/cer.go and smparser (CER.Parse, Application.Parse, chooseErr, handleGroup, validate); getLocalAddresses as a table over the harness' endpoint menu"],
     ),
